@@ -137,7 +137,77 @@ Section Root.
     apply Rle_trans with ((12 / 10) * rs); [apply Zcode_near_1; [exact HTr|lra]|].
     unfold g in *. lra.
   Qed.
+  (* the root's reduced density stays below 3 on the whole rectangle, and rho Z(rho) = g there *)
+  Theorem root_density_facts :
+    let Z := z_factor_DAK brentq T p Tpc Ppc in
+    let rho := 27 / 100 * pr / (Z * Tr) in
+    0 < rho < 3 /\ rhoZ C0code Tr rho = g /\ Z = Zeos C0code Tr rho.
+  Proof.
+    cbv zeta. destruct Z_is_root as [HZ [_ Hrho]]. cbv zeta in HZ, Hrho.
+    destruct root_facts as [[Hl Hu] Hroot]. pose proof g_pos as Hg. pose proof g_le as Hgle.
+    rewrite Hrho in *. 
+    assert (Hrs : 0 < rs) by lra.
+    assert (E : rhoZ C0code Tr rs = g).
+    { unfold F in Hroot. unfold rhoZ, g.
+      assert (Zeos C0code Tr rs = 27 / 100 * pr / (Tr * rs)) by lra. rewrite H. field. lra. }
+    split; [|split; [exact E|exact HZ]].
+    split; [exact Hrs|].
+    destruct (Rlt_le_dec rs 3) as [Hlt|Hge]; [exact Hlt|exfalso].
+    pose proof (rhoZ_code_at_3 Tr HTr) as H3.
+    destruct (Rle_lt_or_eq_dec _ _ Hge) as [Hgt|Heq].
+    - pose proof (rhoZ_code_strict_mono Tr 3 rs HTr ltac:(lra) Hgt ltac:(lra)). lra.
+    - rewrite <- Heq in E. lra.
+  Qed.
 End Root.
+
+(* C06, continuity: Z is Lipschitz in pressure on the whole rectangle, with an explicit constant *)
+Theorem Z_lipschitz_in_pressure : forall brentq,
+  (forall f a b, a < b -> f a * f b < 0 -> (forall x, a <= x <= b -> continuity_pt f x) ->
+     a <= brentq f a b <= b /\ f (brentq f a b) = 0) ->
+  forall T Tpc Ppc p1 p2,
+    let Tr := (T + 45967 / 100) / (Tpc + 45967 / 100) in
+    105 / 100 <= Tr <= 3 -> 0 < p1 / Ppc <= 30 -> 0 < p2 / Ppc <= 30 ->
+    Rabs (z_factor_DAK brentq T p1 Tpc Ppc - z_factor_DAK brentq T p2 Tpc Ppc)
+    <= 22 / rhoZ_code_slope_lb * (27 / 100 / Tr) * Rabs (p1 / Ppc - p2 / Ppc).
+Proof.
+  intros brentq Hspec T Tpc Ppc p1 p2 Tr HTr H1 H2.
+  pose proof (root_density_facts brentq Hspec T p1 Tpc Ppc HTr H1) as [Hr1 [E1 Z1]].
+  pose proof (root_density_facts brentq Hspec T p2 Tpc Ppc HTr H2) as [Hr2 [E2 Z2]].
+  cbv zeta in Hr1, E1, Z1, Hr2, E2, Z2. fold Tr in Hr1, E1, Z1, Hr2, E2, Z2.
+  set (r1 := 27 / 100 * (p1 / Ppc) / (z_factor_DAK brentq T p1 Tpc Ppc * Tr)) in *.
+  set (r2 := 27 / 100 * (p2 / Ppc) / (z_factor_DAK brentq T p2 Tpc Ppc * Tr)) in *.
+  rewrite Z1, Z2.
+  assert (Ht0 : Tr <> 0) by lra.
+  assert (Hup : Rabs (Zeos C0code Tr r1 - Zeos C0code Tr r2) <= 22 * Rabs (r1 - r2)).
+  { apply (mvt_upper (Zeos C0code Tr) (Zcode_slope Tr) 0 3).
+    - intros x _. now apply Zcode_slope_derive.
+    - intros x Hx. now apply Zcode_slope_bound.
+    - lra.
+    - lra. }
+  assert (Hlo : rhoZ_code_slope_lb * Rabs (r1 - r2) <= Rabs (rhoZ C0code Tr r1 - rhoZ C0code Tr r2)).
+  { apply (mvt_lower (rhoZ C0code Tr) (drhoZ_code Tr) 0 3).
+    - intros x _. now apply rhoZ_code_derive.
+    - intros x Hx. now apply drhoZ_code_lb.
+    - pose proof rhoZ_code_slope_lb_pos. lra.
+    - lra.
+    - lra. }
+  rewrite E1, E2 in Hlo.
+  generalize dependent (p1 / Ppc). generalize dependent (p2 / Ppc). intros q2 H2 r2 Hr2 E2 Z2 q1 H1 r1 Hr1 E1 Z1 Hup Hlo.
+  replace (27 / 100 * q1 / Tr - 27 / 100 * q2 / Tr)
+    with ((27 / 100 / Tr) * (q1 - q2)) in Hlo by (field; lra).
+  rewrite Rabs_mult, (Rabs_pos_eq (27 / 100 / Tr)) in Hlo
+    by (apply Rlt_le, Rdiv_lt_0_compat; lra).
+  pose proof rhoZ_code_slope_lb_pos as Hc.
+  assert (Hd : Rabs (r1 - r2) <= (27 / 100 / Tr) * Rabs (q1 - q2) / rhoZ_code_slope_lb).
+  { apply Rmult_le_reg_l with rhoZ_code_slope_lb; [exact Hc|].
+    replace (rhoZ_code_slope_lb * (27 / 100 / Tr * Rabs (q1 - q2) / rhoZ_code_slope_lb))
+      with (27 / 100 / Tr * Rabs (q1 - q2)) by (field; lra).
+    exact Hlo. }
+  apply Rle_trans with (22 * Rabs (r1 - r2)); [exact Hup|].
+  replace (22 / rhoZ_code_slope_lb * (27 / 100 / Tr) * Rabs (q1 - q2))
+    with (22 * ((27 / 100 / Tr) * Rabs (q1 - q2) / rhoZ_code_slope_lb)) by (field; lra).
+  apply Rmult_le_compat_l; [lra|exact Hd].
+Qed.
 
 Theorem C06_Z_is_root_of_coded_eos : forall brentq,
   (forall f a b, a < b -> f a * f b < 0 -> (forall x, a <= x <= b -> continuity_pt f x) ->
@@ -178,6 +248,41 @@ Theorem C06_Z_tends_to_one : forall brentq,
     <= (648 / 100) * ((p / Ppc) / ((T + 45967 / 100) / (Tpc + 45967 / 100))).
 Proof. intros. now apply Z_tends_to_one. Qed.
 Print Assumptions C06_Z_tends_to_one.
+
+(* the reduced density of the returned root is strictly increasing in pressure *)
+Theorem reduced_density_increasing : forall brentq,
+  (forall f a b, a < b -> f a * f b < 0 -> (forall x, a <= x <= b -> continuity_pt f x) ->
+     a <= brentq f a b <= b /\ f (brentq f a b) = 0) ->
+  forall T Tpc Ppc p1 p2,
+    let Tr := (T + 45967 / 100) / (Tpc + 45967 / 100) in
+    105 / 100 <= Tr <= 3 -> 0 < p1 / Ppc <= 30 -> 0 < p2 / Ppc <= 30 -> p1 / Ppc < p2 / Ppc ->
+    0 < 27 / 100 * (p1 / Ppc) / (z_factor_DAK brentq T p1 Tpc Ppc * Tr)
+      < 27 / 100 * (p2 / Ppc) / (z_factor_DAK brentq T p2 Tpc Ppc * Tr).
+Proof.
+  intros brentq Hspec T Tpc Ppc p1 p2 Tr HTr H1 H2 H12.
+  pose proof (root_density_facts brentq Hspec T p1 Tpc Ppc HTr H1) as [Hr1 [E1 _]].
+  pose proof (root_density_facts brentq Hspec T p2 Tpc Ppc HTr H2) as [Hr2 [E2 _]].
+  cbv zeta in Hr1, E1, Hr2, E2. fold Tr in Hr1, E1, Hr2, E2.
+  set (r1 := 27 / 100 * (p1 / Ppc) / (z_factor_DAK brentq T p1 Tpc Ppc * Tr)) in *.
+  set (r2 := 27 / 100 * (p2 / Ppc) / (z_factor_DAK brentq T p2 Tpc Ppc * Tr)) in *.
+  split; [lra|].
+  assert (Hg : 27 / 100 * (p1 / Ppc) / Tr < 27 / 100 * (p2 / Ppc) / Tr).
+  { unfold Rdiv at 1 3. apply Rmult_lt_compat_r; [apply Rinv_0_lt_compat; lra|]. lra. }
+  destruct (Rlt_le_dec r1 r2) as [Hlt|Hge]; [exact Hlt|exfalso].
+  destruct (Rle_lt_or_eq_dec _ _ Hge) as [Hgt|Heq].
+  - pose proof (rhoZ_code_strict_mono Tr r2 r1 HTr ltac:(lra) Hgt ltac:(lra)). lra.
+  - rewrite Heq in E2. lra.
+Qed.
+
+Theorem C06_Z_is_lipschitz_in_pressure : forall brentq,
+  (forall f a b, a < b -> f a * f b < 0 -> (forall x, a <= x <= b -> continuity_pt f x) ->
+     a <= brentq f a b <= b /\ f (brentq f a b) = 0) ->
+  forall T Tpc Ppc p1 p2,
+    105 / 100 <= (T + 45967 / 100) / (Tpc + 45967 / 100) <= 3 -> 0 < p1 / Ppc <= 30 -> 0 < p2 / Ppc <= 30 ->
+    Rabs (z_factor_DAK brentq T p1 Tpc Ppc - z_factor_DAK brentq T p2 Tpc Ppc)
+    <= 22 / rhoZ_code_slope_lb * (27 / 100 / ((T + 45967 / 100) / (Tpc + 45967 / 100))) * Rabs (p1 / Ppc - p2 / Ppc).
+Proof. intros. now apply Z_lipschitz_in_pressure. Qed.
+Print Assumptions C06_Z_is_lipschitz_in_pressure.
 
 (* non-vacuity: T = 200 F, Tpc = -72 F, p = 2000, Ppc = 653 lies in the rectangle *)
 Example C06_box_inhabited :
